@@ -2620,6 +2620,17 @@ impl Exec {
         if let Some(v) = fxo(a, "fee_prog") {
             b.collected_program_fees_outstanding = v;
         }
+        // a bank created before the seven-point curve existed: the three legacy parameters, curve type 0, no points
+        if let Some(l) = a.get("legacy") {
+            let irc = &mut b.config.interest_rate_config;
+            irc.curve_type = 0;
+            irc.optimal_utilization_rate = fxo(l, "opt").ok_or("legacy.opt")?;
+            irc.plateau_interest_rate = fxo(l, "plateau").ok_or("legacy.plateau")?;
+            irc.max_interest_rate = fxo(l, "max").ok_or("legacy.max")?;
+            irc.zero_util_rate = 0;
+            irc.hundred_util_rate = 0;
+            irc.points = [marginfi_type_crate::types::RatePoint::default(); 5];
+        }
         acct.data[8..8 + sz].copy_from_slice(bytemuck::bytes_of(&b));
         Ok(())
     }
